@@ -100,3 +100,117 @@ Theorem C02_cluster_eq :
 Proof. exact @C02_cluster. Qed.
 Print Assumptions C02_cluster_eq.
 
+(* ---- added by bin/mkprops (batch 2) ---- *)
+From GoFlags Require Import Base.Str Base.Utf8 Golib.Strings Golib.Strconv Model.Types Model.Tag Model.Scan Model.Lookup Model.Convert Model.State Model.Closest Model.Help Model.Parse Model.Ini Model.Complete.
+From GoFlags Require Import Proofs.EquivSpec.
+
+(* END TO END: two token lists that spell the same occurrences have the same outcome of the whole argument loop (same state, same error; only the last popped token and, after an error, the pending spellings of the same remaining occurrences differ) *)
+Theorem C02_same_occurrences_same_outcome_loop :
+  forall (cfg : pconfig) (orc : oracles) (root : command) (ht : rt -> str) (lk : lookup)
+           (toks1 toks2 : list str) (occs : list DenoteSpec.occ),
+         DenoteSpec.spells lk toks1 occs ->
+         DenoteSpec.spells lk toks2 occs ->
+         forall (fuel1 fuel2 : nat) (s1 s2 : pst) (r : rt),
+         ps_lk s1 = lk ->
+         ps_lk s2 = lk ->
+         ps_ret s1 = ps_ret s2 ->
+         ps_pos s1 = ps_pos s2 ->
+         ps_err s1 = ps_err s2 ->
+         ps_cmd s1 = ps_cmd s2 ->
+         ps_args s1 = toks1 ->
+         ps_args s2 = toks2 ->
+         (Datatypes.length toks1 < fuel1)%nat ->
+         (Datatypes.length toks2 < fuel2)%nat ->
+         same_outcome cfg orc ht lk occs r s1 (run_loop cfg orc root ht fuel1 s1 r)
+           (run_loop cfg orc root ht fuel2 s2 r).
+Proof. exact @C02_same_occurrences_same_outcome. Qed.
+Print Assumptions C02_same_occurrences_same_outcome_loop.
+
+(* replacing one spelling of an occurrence by another inside any context never changes the outcome *)
+Theorem C02_spelling_swap_in_context :
+  forall (cfg : pconfig) (orc : oracles) (root : command) (ht : rt -> str) (lk : lookup)
+           (pre post ts1 ts2 : list str) (o : DenoteSpec.occ) (occs_pre occs_post : list DenoteSpec.occ),
+         DenoteSpec.spell1 lk ts1 o ->
+         DenoteSpec.spell1 lk ts2 o ->
+         DenoteSpec.spells lk pre occs_pre ->
+         DenoteSpec.spells lk post occs_post ->
+         forall (fuel1 fuel2 : nat) (s1 s2 : pst) (r : rt),
+         ps_lk s1 = lk ->
+         ps_lk s2 = lk ->
+         ps_ret s1 = ps_ret s2 ->
+         ps_pos s1 = ps_pos s2 ->
+         ps_err s1 = ps_err s2 ->
+         ps_cmd s1 = ps_cmd s2 ->
+         ps_args s1 = pre ++ ts1 ++ post ->
+         ps_args s2 = pre ++ ts2 ++ post ->
+         (Datatypes.length (pre ++ ts1 ++ post) < fuel1)%nat ->
+         (Datatypes.length (pre ++ ts2 ++ post) < fuel2)%nat ->
+         same_outcome cfg orc ht lk (occs_pre ++ o :: occs_post) r s1 (run_loop cfg orc root ht fuel1 s1 r)
+           (run_loop cfg orc root ht fuel2 s2 r).
+Proof. exact @C02_spelling_swap. Qed.
+Print Assumptions C02_spelling_swap_in_context.
+
+(* a cluster -abc is interchangeable with -a -b -c (any runes; second rune not `=`) *)
+Theorem C02_cluster_equals_separate_flags :
+  forall (cfg : pconfig) (orc : oracles) (root : command) (ht : rt -> str) (lk : lookup) 
+           (cs : list N) (ocs : list octx) (post : list str) (occs_post : list DenoteSpec.occ),
+         cs <> [] ->
+         nth 1 cs 0 <> 61 ->
+         Forall2 (cluster_flag lk) cs ocs ->
+         DenoteSpec.spells lk post occs_post ->
+         forall (fuel1 fuel2 : nat) (s1 s2 : pst) (r : rt),
+         ps_lk s1 = lk ->
+         ps_lk s2 = lk ->
+         ps_ret s1 = ps_ret s2 ->
+         ps_pos s1 = ps_pos s2 ->
+         ps_err s1 = ps_err s2 ->
+         ps_cmd s1 = ps_cmd s2 ->
+         ps_args s1 = cluster_tok cs :: post ->
+         ps_args s2 = sep_toks cs ++ post ->
+         (Datatypes.length (cluster_tok cs :: post) < fuel1)%nat ->
+         (Datatypes.length (sep_toks cs ++ post) < fuel2)%nat ->
+         cluster_outcome cfg orc ht lk cs ocs post occs_post r s1 s2 (run_loop cfg orc root ht fuel1 s1 r)
+           (run_loop cfg orc root ht fuel2 s2 r).
+Proof. exact @C02_cluster_as_flags. Qed.
+Print Assumptions C02_cluster_equals_separate_flags.
+
+Theorem C02_cluster_equals_separate_flags_in_context :
+  forall (cfg : pconfig) (orc : oracles) (root : command) (ht : rt -> str) (lk : lookup)
+           (pre : list str) (occs_pre : list DenoteSpec.occ) (cs : list N) (ocs : list octx) 
+           (post : list str) (occs_post : list DenoteSpec.occ),
+         cs <> [] ->
+         nth 1 cs 0 <> 61 ->
+         Forall2 (cluster_flag lk) cs ocs ->
+         DenoteSpec.spells lk pre occs_pre ->
+         DenoteSpec.spells lk post occs_post ->
+         forall (fuel1 fuel2 : nat) (s1 s2 : pst) (r rm : rt),
+         ps_lk s1 = lk ->
+         ps_lk s2 = lk ->
+         ps_ret s1 = ps_ret s2 ->
+         ps_pos s1 = ps_pos s2 ->
+         ps_err s1 = ps_err s2 ->
+         ps_cmd s1 = ps_cmd s2 ->
+         ps_args s1 = pre ++ cluster_tok cs :: post ->
+         ps_args s2 = pre ++ sep_toks cs ++ post ->
+         (Datatypes.length (pre ++ cluster_tok cs :: post) < fuel1)%nat ->
+         (Datatypes.length (pre ++ sep_toks cs ++ post) < fuel2)%nat ->
+         DenoteSpec.denote orc (pc_nsdelim cfg) ht occs_pre r = Ok (rm, None) ->
+         cluster_outcome cfg orc ht lk cs ocs post occs_post rm s1 s2 (run_loop cfg orc root ht fuel1 s1 r)
+           (run_loop cfg orc root ht fuel2 s2 r).
+Proof. exact @C02_cluster_in_context. Qed.
+Print Assumptions C02_cluster_equals_separate_flags_in_context.
+
+Theorem C02_first_failing_occurrence_unique :
+  forall (orc : oracles) (delim : str) (ht : rt -> str) (pre1 : list (octx * option str)) 
+           (oc1 : octx) (a1 : option str) (post1 pre2 : list (octx * option str)) (oc2 : octx)
+           (a2 : option str) (post2 : list (octx * option str)) (r r1 r2 r1' r2' : rt) 
+           (e1 e2 : err),
+         pre1 ++ (oc1, a1) :: post1 = pre2 ++ (oc2, a2) :: post2 ->
+         DenoteSpec.denote orc delim ht pre1 r = Ok (r1, None) ->
+         opt_set orc delim ht oc1 a1 r1 = Ok (r1', Some e1) ->
+         DenoteSpec.denote orc delim ht pre2 r = Ok (r2, None) ->
+         opt_set orc delim ht oc2 a2 r2 = Ok (r2', Some e2) ->
+         pre1 = pre2 /\ oc1 = oc2 /\ a1 = a2 /\ post1 = post2 /\ r1 = r2 /\ r1' = r2' /\ e1 = e2.
+Proof. exact @denote_first_error_unique. Qed.
+Print Assumptions C02_first_failing_occurrence_unique.
+
